@@ -46,7 +46,7 @@ PROPS = {
     },
     "C16": {
         "rule": "statically valid scripts from the generator (all constructs, six types, variables in every position, bounded overdraft and caps under send-all) and, for every second one, one edit among: delete / duplicate / move a declaration, rename or retarget a use, add an unused declaration; one script in five is ill-typed on purpose. analysis.CheckSource diagnostics (kind with payload, severity, range) and symbols compared with the model's; unbound / duplicate / unused diagnostics compared with Spec/Names.v, error-severity diagnostics forbidden when Spec/Typing.valid holds. Non-trivial: the text parses without error; distinct by hash.",
-        "assumptions": ["Spec/Typing.valid is a conservative reading of 'valid by the language's static rules' (it excludes warning-only scripts)", "Spec/Names.v fixes 'not yet declared' as program order: a declaration is in scope for the arguments of its own origin"],
+        "assumptions": ["Spec/Typing.valid is a conservative reading of 'valid by the language's static rules' (it excludes warning-only scripts)", "Spec/Names.v fixes 'not yet declared' as program order: a declaration is NOT in scope for the arguments of its own origin (the interpreter evaluates the origin first)"],
         "trusted_base": ["modelled rather than verified: analysis/check.go, diagnostic_kind.go, document_symbols.go (coq/Model/Check.v)"],
     },
     "C17": {
